@@ -69,6 +69,12 @@ def parity(ctx):
     if loops:
         it = norm(loops[0].iter)
         R.check(it.startswith('[') or it.startswith('list(') or it.startswith('tuple('), rule, f'{HOST}.on_transport_lost | snapshot', 'iterates over a snapshot (the teardown mutates the tables)', 'iterates the live tables while they are being modified', p.loc(loops[0]))
+    # nothing before the teardown loop can raise: the pending command's future is settled only if it is still pending
+    # (its response may have arrived in the same loop iteration, before the waiting task resumed)
+    settles = [c for c in calls_in(tl) if call_attr(c) in ('set_exception', 'set_result') and (dotted(c.func.value) or '').startswith('self.')]
+    unguarded = [c for c in settles if not any(norm(t) == f'{dotted(c.func.value)}.done()' and not pol for t, pol in paths.flat_guards(c))]
+    R.check(bool(settles) and not unguarded, rule, f'{HOST}.on_transport_lost | settles only a pending future', 'set_exception is under `not <future>.done()`',
+            'the pending command\'s future is settled without testing done(): if its response arrived in the same loop iteration set_exception raises InvalidStateError and the whole teardown (links, flush) is skipped', p.loc(unguarded[0]) if unguarded else p.loc(tl))
     R.check("self.pending_response.set_exception(TransportLostError(" in norm(tl) and "self.emit('flush')" in norm(tl), rule, f'{HOST}.on_transport_lost | command and flush', 'pending HCI command fails; flush emitted', 'pending command is not failed / flush not emitted on transport loss', p.loc(tl))
     # listeners of host 'disconnection'
     dod = p.find(f'{DEV}.on_disconnection')
